@@ -369,6 +369,15 @@ def make_machine(c, job, H):
 
     M, meta = build_class(job["shape"], job.get("asm", False), job.get("variant", 0), H)
     H.meta = meta
+    if job["shape"] in ("S5", "S9", "S12") and c.choose("base_instance_first", 2):
+        # machines of the base classes exist before the subclass is instantiated (nothing is shared between classes)
+        for B in reversed(M.__mro__[1:]):
+            if B.__module__ != "magicbot.state_machine" and B is not object:
+                try:
+                    B()
+                except Exception:
+                    pass  # a base without a first state cannot be built on its own
+        c.reach("base-class-instance-first")
     sm = M()
     import logging
 
@@ -421,7 +430,8 @@ def run_history(c, job):
         mt.setup_tunables(twin, f"twin{_NTID[0]}" if not world.is_sym() else "twin")
         for name, d in H.durations.items():
             if job.get("sym_durations", True):
-                setattr(twin, f"{name}_duration", d)
+                # the twin's duration topics carry values of their own
+                setattr(twin, f"{name}_duration", c.real(f"dur_twin_{name}", 0, 100))
     menu = ext_menu(meta, cfg)
     K = cfg["K"]
     for i in range(K):
@@ -572,6 +582,12 @@ def run_asm_history(c, job):
             can_enable = (not running) if not cfg.get("enable_only_after_disable") else (not enabled)
             menu = ["on_iteration", "on_disable"] + (["on_enable"] if can_enable else [])
             op = menu[c.choose(f"op{i}", len(menu))]
+        if cfg.get("rewrite_durations") and i > 0 and (cfg["rewrite_durations"] != "enable" or op == "on_enable"):
+            for name in list(H.durations):
+                if c.choose(f"rw{i}_{name}", 2):
+                    d = c.real(f"dur{i}_{name}", 0, 100)
+                    setattr(sm, f"{name}_duration", d)
+                    H.durations[name] = d
         it.asm_op = op
         it.asm_fresh = False
         it.asm_active = False
